@@ -70,3 +70,9 @@ Proof. exact split_uniform_halo_home. Qed.
 Theorem C02_rt_merge1_concat : forall parts, all_nodes parts -> int_sorted (concat (lowers parts)) ->
   merge1 (TNode parts) = Some (TNode (concat (lowers parts))).
 Proof. exact merge1_concat. Qed.
+
+(* (b) at any depth: the interpreter applies the operations to every fiber at depth d (Rt.tmap_depth) *)
+Theorem C02_rt_split_uniform_merge1_depth : forall d step t, 0 < step ->
+  at_depth d (fiber_ok (fun l => int_sorted l /\ nonneg_keys l)) t ->
+  exists t', tmap_depth d (split_uniform step 0 0) t = Some t' /\ tmap_depth d merge1 t' = Some t.
+Proof. exact split_uniform_merge1_depth. Qed.
